@@ -1,4 +1,4 @@
-import CashewsVerif.Lemmas.ClientSideInv2
+import CashewsVerif.Lemmas.ClientSideOutage
 /-
 C20 — the client-side cache agrees with the server once invalidations are delivered.
 
@@ -129,6 +129,72 @@ theorem drop_empties_local (st : St) (i : Nat) :
     cases hv : srvValue st' k <;> rfl
   · simp [CS.step, hs]
 
+/-- **The local copy at every point of an outage** (any state `st`, any client `i`; no invariant assumed).  The timeline is
+`drop i`, then any number of windows of commands (of anybody, `i` included) each closed by a refused reconnect attempt
+`Op.refused i` — the code runs the same `except` branch for it, so it is `drop i` again —, then a last window, then
+`reconnect i`:
+(1) right after the drop AND right after every refused attempt the client is stopped, its local copy is empty and nothing
+    is queued for it;
+(2) inside a window (the client is stopped, whatever its local copy holds by now) every read of `i` — get, exists,
+    get_many, get_match — is answered by the server;
+(3) …and such a read IS WRITTEN into the local copy (the value, or the "known absent" marker): during the outage the
+    local copy fills up with content for which no invalidation will ever arrive;
+(4) `reconnect i`, from ANY state — in particular whatever (3) wrote since the last refused attempt —, starts the client
+    with an empty local copy, no echo marks and an empty queue. -/
+theorem outage_local_copy (st : St) (i : Nat) :
+    (((CS.step st (Op.refused i)).1.cl i).started = false ∧ (∀ k, ((CS.step st (Op.refused i)).1.cl i).loc k = none) ∧
+      ((CS.step st (Op.refused i)).1.cl i).queue = []) ∧
+    ((st.cl i).started = false → ∀ k ks pat,
+      (CS.step st (.get i k)).2 = .val (srvValue st k) ∧ (CS.step st (.exists_ i k)).2 = .bool (st.srv.ks.present k) ∧
+      (CS.step st (.getMany i ks)).2 = .vals (ks.map (srvValue st)) ∧
+      (CS.step st (.getMatch i pat)).2 =
+        .pairs ((Ref.matching st.srv.ks pat).filterMap fun k => (srvValue st k).map fun v => (k, v))) ∧
+    ((st.cl i).started = false → ∀ k, ∃ dl, ((CS.step st (.get i k)).1.cl i).loc k =
+      some ⟨(match srvValue st k with | some v => .val v | none => .absent), dl⟩) ∧
+    (((CS.step st (.reconnect i)).1.cl i).started = true ∧ (∀ k, ((CS.step st (.reconnect i)).1.cl i).loc k = none) ∧
+      (∀ k, ((CS.step st (.reconnect i)).1.cl i).marks k = none) ∧ ((CS.step st (.reconnect i)).1.cl i).queue = []) := by
+  refine ⟨⟨by simp [CS.step, upd], by intro k; simp [CS.step, upd, Client.lclear], by simp [CS.step, upd]⟩, ?_, ?_,
+    ⟨by simp [CS.step, upd], by intro k; simp [CS.step, upd, Client.lclear], by intro k; simp [CS.step, upd],
+     by simp [CS.step, upd]⟩⟩
+  · intro hs k ks pat
+    have h : NoLocalAnswer st i := Or.inl hs
+    exact ⟨get_of_noLocalAnswer st i h k, exists_of_noLocalAnswer st i h k, getMany_of_noLocalAnswer st i h ks,
+      getMatch_of_noLocalAnswer st i h pat⟩
+  · intro hs k
+    exact get_stopped_writes_local st i hs k
+
+/-- **Nothing read or written during the outage is served after the reconnect** (any state before the reconnect — any
+number of refused attempts, any reads and writes of the client after the last of them, any changes by other clients
+meanwhile): the first read of every key after `reconnect i` — get, exists, get_many, get_match — is the server's content
+of that moment.  (From then on the general theorem takes over: the re-established connection announces later changes.) -/
+theorem reads_after_reconnect_equal_server (st : St) (i : Nat) (k : String) (ks : List String) (pat : String) :
+    let st' := (CS.step st (.reconnect i)).1
+    (CS.step st' (.get i k)).2 = .val (srvValue st' k) ∧ (CS.step st' (.exists_ i k)).2 = .bool (st'.srv.ks.present k) ∧
+    (CS.step st' (.getMany i ks)).2 = .vals (ks.map (srvValue st')) ∧
+    (CS.step st' (.getMatch i pat)).2 =
+      .pairs ((Ref.matching st'.srv.ks pat).filterMap fun k => (srvValue st' k).map fun v => (k, v)) := by
+  intro st'
+  have h : NoLocalAnswer st' i := Or.inr (by intro k; simp [st', CS.step, upd, Client.lclear])
+  exact ⟨get_of_noLocalAnswer st' i h k, exists_of_noLocalAnswer st' i h k, getMany_of_noLocalAnswer st' i h ks,
+    getMatch_of_noLocalAnswer st' i h pat⟩
+
+/-- the history of an outage of client `i`'s invalidation connection, with the reconnect schedule explicit: `pre`, the drop,
+the windows of commands that end in a refused attempt, the last window, the reconnect, `post` -/
+def outageHist (i : Nat) (pre : List CS.Op) (windows : List (List CS.Op)) (last post : List CS.Op) : List CS.Op :=
+  pre ++ [.drop i] ++ windows.flatMap (fun w => w ++ [Op.refused i]) ++ last ++ [.reconnect i] ++ post
+
+/-- **Agreement across an outage** — the general theorem read on histories of that shape: whatever any client (the
+disconnected one included) reads and writes in any of the windows, for any number of refused attempts, at the quiescent
+point after `post` (and so after every prefix of it, the empty one included) every read of every client is the
+server's content. -/
+theorem agreement_across_outage (isEnc : String → Bool) (i : Nat) (pre : List CS.Op) (windows : List (List CS.Op))
+    (last post : List CS.Op) (hwf : ∀ op ∈ outageHist i pre windows last post, WF isEnc op)
+    (j : Nat) (k : String) (ks : List String) :
+    let st := (CS.qrun (St.init isEnc) (outageHist i pre windows last post)).1
+    (CS.step st (.get j k)).2 = .val (srvValue st k) ∧ (CS.step st (.exists_ j k)).2 = .bool (st.srv.ks.present k) ∧
+    (CS.step st (.getMany j ks)).2 = .vals (ks.map (srvValue st)) :=
+  reads_equal_server isEnc _ hwf j k ks
+
 /-! ### Non-vacuity -/
 
 def dec : String → Bool := fun _ => true
@@ -221,6 +287,36 @@ example : ∀ op ∈ sampleHist4, WF dec op := by
 example : (CS.qrun (St.init dec) sampleHist4).2 =
     [.bool true, .val (some (.int 1)), .val (some (.int 1)), .none_, .val none, .bool false, .val none, .none_, .val none,
      .bool true, .val (some (.int 2))] ∧ srvValue (CS.qrun (St.init dec) (sampleHist4.take 4)).1 "k" = none := by decide +kernel
+
+/-- an outage with its reconnect schedule: client 0 loses the connection; 10 s later its first attempt is refused; AFTER
+that it reads `k` (the server's value, remembered locally) and `zz` (nothing there: remembered as "known absent"); client 1
+overwrites `k` and creates `zz`; client 0's reads in the outage already see both (they bypass the local copy); 10 s after
+the refusal the connection is re-established; client 0 reads the server's content, also after a later change -/
+def sampleHist5 : List CS.Op :=
+  outageHist 0 [.set 1 "k" (.int 1) none .always, .get 0 "k"]
+    [[.adv 10000]]
+    [.get 0 "k", .get 0 "zz", .set 1 "k" (.int 2) none .always, .set 1 "zz" (.obj "cc") none .always, .get 0 "k", .adv 10000]
+    [.get 0 "k", .get 0 "zz", .getMany 0 ["k", "zz"], .delete 1 "k", .get 0 "k"]
+
+example : ∀ op ∈ sampleHist5, WF dec op := by
+  intro op hop
+  simp only [sampleHist5, outageHist, List.flatMap_cons, List.flatMap_nil, List.append_nil, List.cons_append, List.nil_append,
+    List.mem_cons, List.mem_nil_iff, or_false] at hop
+  repeat (first | (rcases hop with h | hop; · subst h; simp [WF, DecV, TokOK, dec]) | (subst hop; simp [WF, DecV, TokOK, dec]))
+
+example : (CS.qrun (St.init dec) sampleHist5).2 =
+    [.bool true, .val (some (.int 1)), .none_, .none_, .none_, .val (some (.int 1)), .val none, .bool true, .bool true,
+     .val (some (.int 2)), .none_, .none_, .val (some (.int 2)), .val (some (.obj "cc")),
+     .vals [some (.int 2), some (.obj "cc")], .bool true, .val none] := by decide +kernel
+
+/-- the local copy of client 0 along that history: just before the reconnect it holds what the outage-time reads wrote (`k`
+as last read, `zz` still as "known absent" although the server has it by now) — and the reconnect throws it away -/
+example :
+    let before := (CS.qrun (St.init dec) (sampleHist5.take 11)).1
+    ((before.cl 0).started = false ∧ (before.cl 0).loc "k" = some ⟨.val (.int 2), none⟩ ∧
+      (before.cl 0).loc "zz" = some ⟨.absent, none⟩ ∧ srvValue before "zz" = some (.obj "cc")) ∧
+    (let after := (CS.qrun (St.init dec) (sampleHist5.take 12)).1
+     (after.cl 0).started = true ∧ (after.cl 0).loc "k" = none ∧ (after.cl 0).loc "zz" = none) := by decide +kernel
 
 /-- a rejected conditional write exists (the premise of `rejected_conditional_never_readable` is reachable) -/
 example : (CS.step (CS.qrun (St.init dec) [.set 0 "k" (.int 1) none .always]).1 (.set 1 "k" (.int 2) none .nx)).2 = .bool false := by
